@@ -536,7 +536,7 @@ Fixpoint from_attrs (attrs : list attr) (i : info) : option eres * info :=
           | None => (Some (EStream c_bad_format), i)
           end
         else from_attrs r i
-      else if bytes_eqb (a_space a) (str "xml") && bytes_eqb (a_local a) (str "lang") then
+      else if (bytes_eqb (a_space a) ns_xml || bytes_eqb (a_space a) (str "xml")) && bytes_eqb (a_local a) (str "lang") then
         from_attrs r (set_lang i (a_val a))
       else from_attrs r i
   end.
@@ -688,6 +688,7 @@ Definition neg_round (recv s2s ws : bool) (lang rid : bytes) (i : info) (ts : li
     | EOk =>
         if negb (jid_eqb location (i_from i')) then (NMismatch, i', wire)
         else if negb (jid_eqb (i_to i') jid_zero) && negb (jid_eqb origin (i_to i')) then (NMismatch, i', wire)
+        else if jid_eqb (i_to i') jid_zero then (NOk, set_to i' origin, wire)   (* a missing or empty "to" keeps our address *)
         else (NOk, i', wire)
     | _ => (NExpect e, i', wire)
     end.
